@@ -29,6 +29,9 @@ func c03Cfg(s *EnumSpec, v []int) RCfg {
 	switch s.Val(v, "names") {
 	case "single":
 		cfg.Name = "svc.example.com"
+	case "user-regex":
+		// no name contains an '@', yet the verdict of the pattern depends on the user part
+		cfg.Name = "svc.example.com,^(911|112)"
 	case "anything":
 		cfg.Name = ".+"
 	}
@@ -91,6 +94,8 @@ func c03Msg(s *EnumSpec, v []int) *WMsg {
 		"user-at-host": "sip:carol@pbx.example.com", "wrong-user": "sip:dave@pbx.example.com", "urn": "urn:service:sos", "tel": "tel:+15551234",
 		"listener": "sip:127.0.0.1:" + lport, "listener-noport": "sip:127.0.0.1", "listener-wrong-port": "sip:127.0.0.1:5099", "substring-user": "sip:xcarol@pbx.example.com",
 		"service-host-nouser": "sip:svc.example.com;transport=udp",
+		// a regular-expression name whose verdict depends on the user alone: same host, different users (and again)
+		"regex-user-match": "sip:911@misc.example.net", "regex-user-nomatch": "sip:1234@misc.example.net", "regex-user-match-2": "sip:112@misc.example.net",
 		// Request-URIs without a user part against regular-expression names: the subject is "@host"
 		"nouser-regex-with-at": "sip:atonly.example.com", "nouser-regex-without-at": "sip:noat.example.com",
 	}[s.Val(v, "ruri")]
@@ -99,7 +104,11 @@ func c03Msg(s *EnumSpec, v []int) *WMsg {
 	if s.Val(v, "body") == "2000" {
 		body = bytes.Repeat([]byte("0123456789abcdef"), 125)
 	}
-	return MsgSpec{Method: "OPTIONS", RURI: ruri, Vias: []string{"SIP/2.0/" + tr + " 127.0.0.9:5060;branch=z9hG4bKc03"}, Routes: routes,
+	vias := []string{"SIP/2.0/" + tr + " 127.0.0.9:5060;branch=z9hG4bKc03"}
+	if s.Val(v, "vias") == "spiral" {
+		vias = append(vias, "SIP/2.0/"+tr+" 127.0.0.1:"+lport+";branch=z9hG4bKfirstpass", "SIP/2.0/UDP 127.0.0.8:5060;branch=z9hG4bKorig")
+	}
+	return MsgSpec{Method: "OPTIONS", RURI: ruri, Vias: vias, Routes: routes,
 		From: "<sip:alice@ua.example.net>;tag=f1", To: "<sip:bob@" + to + ">", CallID: "c03", CSeq: "1 OPTIONS", Body: body}.Build()
 }
 
@@ -256,13 +265,16 @@ func init() {
 			{Name: "hoplr", Vals: []string{"lr", "none"}},
 			{Name: "tohost", Vals: []string{"nomatch", "exact", "wildcard", "exact-under-wildcard", "wildcard-second-dest", "exact-third-dest"}},
 			{Name: "table", Vals: []string{"no-default", "default-udp", "default-tls", "empty"}, Quick: 2},
-			{Name: "ruri", Vals: []string{"foreign", "service-host", "regex-only", "user-at-host", "wrong-user", "urn", "tel", "listener", "listener-noport", "listener-wrong-port", "nouser-regex-with-at", "nouser-regex-without-at", "substring-user", "service-host-nouser"}, Quick: 12},
+			{Name: "ruri", Vals: []string{"foreign", "service-host", "regex-only", "regex-user-match", "regex-user-nomatch", "regex-user-match-2", "user-at-host", "wrong-user", "urn", "tel", "listener", "listener-noport", "listener-wrong-port", "nouser-regex-with-at", "nouser-regex-without-at", "substring-user", "service-host-nouser"}, Quick: 15},
 			{Name: "keep", Vals: []string{"off", "true", "Yes", "0"}, Quick: 2},
 			{Name: "arrival", Vals: []string{"udp", "tcp"}},
-			{Name: "names", Vals: []string{"list", "single", "anything"}, Quick: 2},
+			{Name: "names", Vals: []string{"list", "user-regex", "single", "anything"}, Quick: 2},
 			{Name: "backends", Vals: []string{"udp+tcp", "none", "one-tcp"}, Quick: 2},
 			{Name: "prelude", Vals: []string{"none", "hop-learned", "same-request-other-listener"}},
 			{Name: "body", Vals: []string{"none", "2000"}},
+			// a spiral: the request has been through this listener before (a downstream element retargeted it and sent
+			// it back), so one of the lower Via entries names the listener itself; it is routed like any other request
+			{Name: "vias", Vals: []string{"first-pass", "spiral"}},
 		},
 		Eval: c03Eval,
 	}
@@ -287,6 +299,9 @@ func init() {
 		r := s.Val(v, "route")
 		hasNext := r == "own+next" || r == "next" || r == "next+further" || r == "own-alias+next"
 		// the large body is crossed with the deciding features, not with spellings and preludes
+		if v[s.idx("vias")] != 0 && (v[s.idx("body")] != 0 || v[s.idx("prelude")] != 0 || v[s.idx("hoplr")] != 0 || v[s.idx("hopport")] > 1 || v[s.idx("hophost")] != 0 || v[s.idx("hoptransport")] > 2) {
+			return true
+		}
 		if v[s.idx("body")] != 0 && (v[s.idx("prelude")] != 0 || v[s.idx("names")] != 0 || v[s.idx("hoplr")] != 0 || v[s.idx("hopport")] > 1 || s.Val(v, "keep") != "off") {
 			return true
 		}
